@@ -20,7 +20,11 @@ impl FixtureDatabase {
         let file_path = self.get_canonical_path(file_path);
         self.analyze_file_internal(file_path.clone(), content, true);
         // An edit may start importing a module the workspace scan never reached
-        self.analyze_unseen_imported_modules(&file_path);
+        if self.analyze_unseen_imported_modules(&file_path) {
+            // The findings recorded for this document (undeclared fixtures) were computed
+            // before the modules it now imports were indexed: compute them again.
+            self.analyze_file_internal(file_path, content, true);
+        }
     }
 
     /// Analyse an imported module from disk unless the index has it already. Inserting its
@@ -51,9 +55,10 @@ impl FixtureDatabase {
     /// was just analysed to modules that are not indexed yet, transitively. The workspace
     /// scan does this once for the files on disk; without it a fixture module that an edit
     /// starts importing stays unknown until the server is restarted.
-    fn analyze_unseen_imported_modules(&self, file_path: &Path) {
+    fn analyze_unseen_imported_modules(&self, file_path: &Path) -> bool {
         let mut pending = vec![file_path.to_path_buf()];
         let mut visited: HashSet<PathBuf> = HashSet::new();
+        let mut indexed_something = false;
 
         while let Some(path) = pending.pop() {
             if !visited.insert(path.clone()) {
@@ -83,10 +88,12 @@ impl FixtureDatabase {
                 };
                 let resolved = self.get_canonical_path(resolved);
                 if self.analyze_imported_module_once(&resolved) {
+                    indexed_something = true;
                     pending.push(resolved);
                 }
             }
         }
+        indexed_something
     }
 
     /// Analysis requested by the workspace scan, with text it read from disk; without
